@@ -626,6 +626,15 @@ func (bal *Balancer) balanceBlock(blkid arvados.SizedDigest, blk *BlockState) ba
 	// class that's currently underreplicated -- in that case we
 	// won't want to trash any replicas.
 	underreplicated := false
+	for class, desired := range blk.Desired {
+		if desired > 0 && len(bal.mountsByClass[class]) == 0 {
+			// No mount offers this class, so the loop
+			// below never considers it: the block cannot
+			// be adequately replicated, don't trash
+			// anything.
+			underreplicated = true
+		}
+	}
 
 	unsafeToDelete := make(map[int64]bool, len(slots))
 	for _, class := range bal.classes {
